@@ -80,6 +80,20 @@ func validateObservedSequenceNumbers(
 	return nil
 }
 
+// validateMessageKeys checks that every observed message is filed under its own sequence number.
+// A message filed under several keys would otherwise be counted once per key when observations are merged.
+func validateMessageKeys(observedMsgs exectypes.MessageObservations) error {
+	for chainSel, msgs := range observedMsgs {
+		for seqNum, msg := range msgs {
+			if msg.Header.SequenceNumber != seqNum {
+				return fmt.Errorf("message with sequence number %d of chain %d observed under key %d",
+					msg.Header.SequenceNumber, chainSel, seqNum)
+			}
+		}
+	}
+	return nil
+}
+
 var errOverlappingRanges = errors.New("overlapping sequence numbers in reports")
 
 // computeRanges takes a slice of reports and computes the smallest number of contiguous ranges
@@ -549,7 +563,12 @@ func mergeCostlyMessages(
 	costlyMessages := mapset.NewSet[cciptypes.Bytes32]()
 	counts := make(map[cciptypes.Bytes32]int)
 	for _, ao := range aos {
+		// one vote per observer and message, however often the observer repeats the ID.
+		seen := mapset.NewSet[cciptypes.Bytes32]()
 		for _, costlyMessage := range ao.Observation.CostlyMessages {
+			if !seen.Add(costlyMessage) {
+				continue
+			}
 			counts[costlyMessage]++
 			if consensus.GteFPlusOne(fChainDest, counts[costlyMessage]) {
 				costlyMessages.Add(costlyMessage)
